@@ -33,7 +33,7 @@ def _summ(r, names, depth=0):
     if isinstance(r, list):
         return "[" + ",".join(_summ(x, names, depth + 1) for x in r) + "]"
     if isinstance(r, dict):
-        return "{" + ",".join(f"{k}:{_summ(v, names, depth + 1)}" for k, v in r.items()) + "}"
+        return "{" + ",".join(sorted(f"{_summ(k, names, depth + 1)}:{_summ(v, names, depth + 1)}" for k, v in r.items())) + "}"
     if type(r).__name__ == "T":
         return "T(" + _summ(r.v, names, depth + 1) + ")"
     if type(r).__name__ == "Box":
@@ -63,7 +63,8 @@ def census(r, names):
         if id(o) in names:
             out.append((names[id(o)], sys.getrefcount(o)))
         elif tn == "T":
-            out.append(("T:" + (o.v if isinstance(o.v, str) else names.get(id(o.v), "?")), sys.getrefcount(o)))
+            if o.v != "fx":  # the module-level Final is additionally held by a C static of the compiled module
+                out.append(("T:" + (o.v if isinstance(o.v, str) else names.get(id(o.v), "?")), sys.getrefcount(o)))
         elif tn in ("Box", "Pair"):
             out.append((tn, sys.getrefcount(o)))
         elif isinstance(o, int) and not isinstance(o, bool) and abs(o) > 2 ** 62:
